@@ -1317,6 +1317,28 @@ func genC19Exhaustive(w *bufio.Writer, g *gen, worlds []int) {
 	}
 }
 
+var taskHeadRe = regexp.MustCompile(`(?m)^task (\w+)\(([^)\n]*)\) \{`)
+
+// genC19Outputs: tasks that DECLARE files of the project as their outputs (files that exist: the results of an earlier
+// build) and whose commands fail or succeed: running a task never touches what it declares — only `--clean` removes
+// outputs, and these histories have no `--clean` (the spec handed to the model does not know the outputs)
+func genC19Outputs(w *bufio.Writer, g *gen, n int) {
+	for i := 0; i < n; i++ {
+		so := specOpts{maxTasks: 3, minCmds: 1, maxCmds: 2, failPct: 45, wantDefault: 1, maxVars: 1}
+		c := g.newCase(so, wValid, treeOpts{withSpokfile: true})
+		for j := range c.tree {
+			if c.tree[j].path == "proj/spokfile" && c.tree[j].kind == "f" {
+				outs := g.pick(`"README.md"`, `("run.sh", "src/a.txt")`, `"sub/keep.txt"`, `("README.md", "sub/deep/leaf.txt")`)
+				c.tree[j].content = taskHeadRe.ReplaceAllString(c.tree[j].content, "task $1($2) -> "+outs+" {")
+			}
+		}
+		fl := g.pickFlags([][]string{nil, nil, {"quiet"}, {"json"}, {"force"}, {"debug"}})
+		args := g.argsFor(c.tasks)
+		c.steps = []step{{cwd: "proj", flags: fl, args: args}, {cwd: g.pick("proj", "proj/sub"), flags: g.pickFlags([][]string{nil, {"force"}}), args: args}}
+		fmt.Fprintln(w, c.encode())
+	}
+}
+
 var c19FlagSets = [][]string{nil, nil, {"show"}, {"vars"}, {"fmt"}, {"init"}, {"force"}, {"quiet"}, {"json"}, {"debug"}, {"debug", "quiet"},
 	{"fmt", "quiet"}, {"fmt", "json"}, {"init", "fmt"}, {"show", "vars"}, {"fmt", "show"}, {"clean"}, {"s"}, {"c"}}
 
@@ -1550,10 +1572,12 @@ func cliGen(w *bufio.Writer, a map[string]string) {
 			genC19Exhaustive(w, g, []int{wValid, wValid, wSyntax, wDup, wBuiltin, wExec})
 			genC19Links(w, g, 20)
 			genC19Random(w, g, 9000)
+			genC19Outputs(w, g, 2000)
 		} else {
 			genC19Exhaustive(w, g, []int{wValid, wSyntax, wDup})
 			genC19Links(w, g, 1)
 			genC19Random(w, g, 300)
+			genC19Outputs(w, g, 120)
 		}
 	case "C17":
 		genC17(w, g)
